@@ -283,6 +283,25 @@ def fam_sweep(g, prop, ty, specs, aligns, fn="gssvx", family="sweep", step=4, sl
     return out
 
 
+def fam_sweep_tall(g, prop, ty, specs, aligns, step=8, slack=400):
+    """the factor routine called directly (sp_preorder + ?gstrf, as the Fortran bridge does) on TALL matrices with a caller
+    workspace of every length: the drivers only accept square systems, the work arrays at the top of the workspace are sized
+    by the row count m while the pointer arrays go by the column count n"""
+    out = []
+    cplx = is_cplx(ty)
+    for mi, (m, n, fill) in enumerate(specs):
+        A, _ = g.matrix(m, n, cplx, style="pow2", kind=g.r.choice(["dense", "sparse", "band"]))
+        tune = g.tune(); tune[5] = fill
+        head = g.mat_lines(A, m, n, "NC", cplx) + opt_lines({"default": 0, "ColPerm": g.r.choice([NATURAL, COLAMD, MMD_ATA]), "Equil": 0, "u": float(g.r.choice([1.0, 0.5]))})
+        top = query_estimate(m, n, len(A), tune[0], fill, DWORD[ty]) + slack
+        for al in aligns:
+            for lw in range(step, top, step):
+                sid = "%s-sweeptall-m%02df%da%d-%05d-%s" % (prop, mi, fill, al, lw, ty)
+                lines = ["tune " + " ".join(map(str, tune))] + head + ["work %d %d" % (lw, al), "events 3", "call gstrf"]
+                out.append({"id": sid, "lines": lines, "n": n})
+    return out
+
+
 def fam_storage(g, prop, count, types, fn="gssvx", nmax=7):
     """C07: one matrix, many ways of obtaining the factor storage: reference (library allocation, fill 30), then
     fill estimates 1..3 with library allocation (0..many expansions) and caller workspaces of several sufficient
@@ -365,6 +384,62 @@ def fam_ilu_sizesweep(g, prop, count, types):
                     lines += ["destroy LUuser", "nowork"]
             lines += ["destroy LU"]
             lst.append({"id": "%s-ilusizes-%05d-%s" % (prop, i, ty), "lines": lines, "n": n})
+        out[ty] = lst
+    return out
+
+
+def fam_ilu_capacity(g, prop, count, types):
+    """C07 / C19 "every exact size of the growable arrays relative to their capacity": a reference incomplete factorization, then
+    one run per column boundary of its factor arrays with exactly that initial capacity (harness commands cursors / fillfrom:
+    the array is exactly full when that column begins), library allocation and caller workspaces of both alignments."""
+    out = {}
+    for ty, k in split_types(count, types).items():
+        cplx = is_cplx(ty)
+        lst = []
+        for i in range(k):
+            r = g.r
+            t = r.random()
+            if t < 0.6:
+                # a leading block that fills in completely (dense first row and column, natural order): the factor arrays are
+                # then longer than nnz(A), i.e. they CAN be exactly full (fill estimate >= 1) when a later column begins;
+                # then the chain / leaf pattern in which dropping empties L columns
+                S, ns = ilu_split_matrix(g)
+                kb = r.randint(4, 9)
+                A = {(a, a): (4.0, 0.0) for a in range(kb)}
+                for a in range(1, kb):
+                    A[(a, 0)] = (float(r.choice([1, -1, 2])), 0.0); A[(0, a)] = (float(r.choice([1, -1, 0.5])), 0.0)
+                for (a, b), v in S.items():
+                    A[(a + kb, b + kb)] = v
+                n = kb + ns
+            elif t < 0.8:
+                A, n = ilu_split_matrix(g)
+            else:
+                n = r.randint(4, 10)
+                A, _ = g.matrix(n, n, False, style="pow2", kind=r.choice(["sparse", "band", "arrow", "dense"]))
+                for kk in list(A):
+                    if kk[0] != kk[1] and r.random() < 0.25:
+                        A[kk] = (A[kk][0] * 2.0 ** -20, 0.0)
+            annz = len(A)
+            relax = r.randint(1, 6)
+            tune = [r.randint(1, 6), relax, r.randint(relax, 8), r.randint(1, 3), r.randint(1, 3), 30, r.randint(relax, 8)]
+            opts = {"iludefault": 0, "ColPerm": NATURAL if t < 0.6 else r.choice([NATURAL, NATURAL, NATURAL, COLAMD]), "Equil": 0, "RowPerm": 0, "u": float(r.choice([1.0, 0.5, 0.125])),
+                    "DropRule": r.choice([0, 1, 1, 1]), "DropTol": float(r.choice([2.0 ** -10, 2.0 ** -10, 2.0 ** -4])), "FillFactor": 40.0, "Sym": r.choice([0, 0, 1])}
+            B = g.rhs_for(A, n, 1, cplx)
+            lines = ["tune " + " ".join(map(str, tune))] + g.mat_lines(A, n, n, "NC", cplx) + g.rhs_lines(B, n, 1, n, cplx) + opt_lines(opts)
+            lines += gssvx_block(work=None, events=3, fn="gsisx") + ["cursors"]
+            est = query_estimate(n, n, annz, tune[0], 8, DWORD[ty]) + 60 * n * DWORD[ty] + 6000
+            nruns = min(3 * n, 45)
+            for kcur in range(nruns):
+                delta = r.choice([0, 0, 0, 0, -1, 1])
+                mode = ["user0", "user4", "sys"][(kcur + i) % 3] if r.random() < 0.8 else r.choice(["user0", "user4"])
+                lines += ["destroy LU"] + g.rhs_lines(B, n, 1, n, cplx) + ["fillfrom %d %d" % (kcur, delta)]
+                if mode == "sys":
+                    lines += gssvx_block(work=None, events=1, fn="gsisx")
+                else:
+                    lines += gssvx_block(work=(est, 0 if mode == "user0" else 4), events=1, fn="gsisx")
+                    lines += ["destroy LUuser", "nowork"]
+            lines += ["destroy LU"]
+            lst.append({"id": "%s-ilucap-%05d-%s" % (prop, i, ty), "lines": lines, "n": n})
         out[ty] = lst
     return out
 
@@ -572,7 +647,7 @@ def history_scenario(g, sid, ty, hist, userwork=False, sym=False):
 
 
 # ----------------------------------------------------------------------------- C18
-def screen_scenario(g, sid, ty, routine, corrupts, mode, plain=False):
+def screen_scenario(g, sid, ty, routine, corrupts, mode, plain=False, rep=0):
     """an otherwise valid call of `routine` with the named single-argument corruptions.  Each corruption names a class of
     illegal values (non-positive, outside the enumeration, below n, ...): which member is used is drawn per scenario
     (plain = the first member and the plainest base call)"""
@@ -614,16 +689,17 @@ def screen_scenario(g, sid, ty, routine, corrupts, mode, plain=False):
         eq = "B"
         if not plain:
             if "R.nonpos" in corrupts and "C.nonpos" not in corrupts:
-                eq = r.choice(["R", "B", "R", "B", "C", "N"])
+                eq = ["R", "B", "R", "B", "C", "N"][(rep // 2) % 6]
             elif "C.nonpos" in corrupts and "R.nonpos" not in corrupts:
-                eq = r.choice(["C", "B", "C", "B", "R", "N"])
+                eq = ["C", "B", "C", "B", "R", "N"][(rep // 2) % 6]
             else:
                 eq = r.choice(["B", "B", "R", "C", "N"])
         lines += ["seteq " + eq] + opt_lines({"Fact": 3})
     elif mode in (1, 2):
         lines += opt_lines({"Fact": mode})          # refactorization with the structures of the first call in place
     for c in corrupts:
-        lines.append("corrupt %s %d" % (c, 0 if plain else r.randrange(0, 997)))
+        # the members of a class are taken in turn (classes have at most 5 members), the rest of the variant number is drawn
+        lines.append("corrupt %s %d" % (c, 0 if plain else 60 * r.randrange(0, 16) + (rep % 60)))
     arg = {"gstrs": " %d" % (0 if plain else r.choice([0, 1, 2])), "gsrfs": " %d" % (0 if plain else r.choice([0, 1, 2])), "gscon": " 1" if plain else r.choice([" 1", " I"])}.get(routine, "")
     lines.append("call screen %s%s" % (routine, arg))
     lines += ["destroy all", "ledger"]
@@ -715,7 +791,11 @@ def fam_equ(g, prop, count, types, float_slice=False):
         for i in range(k):
             r = g.r
             m, n = r.randint(1, 4), r.randint(1, 4)
-            style = r.choice(["mid", "mid", "wide", "extreme", "rows", "cols"])
+            style = r.choice(["mid", "mid", "wide", "extreme", "rows", "cols", "thresh"])
+            # thresh: the largest entry sits at / next to the SMALL and LARGE thresholds of ?laqgs (safe minimum / precision and its
+            # reciprocal), all entries within a factor 8 of it (so that the decision depends on the threshold comparison alone)
+            pexp = {"s": 23, "c": 23, "d": 52, "z": 52}[ty]
+            tbase = r.choice([1, -1]) * (emin + pexp) + r.choice([-2, -1, -1, 0, 0, 0, 1, 1, 2])
             rowsh = [r.randint(-40, 40) if style in ("rows", "wide") else 0 for _ in range(m)]
             colsh = [r.randint(-40, 40) if style in ("cols", "wide") else 0 for _ in range(n)]
             A = {}
@@ -723,7 +803,9 @@ def fam_equ(g, prop, count, types, float_slice=False):
                 for jj in range(n):
                     if r.random() < 0.25:
                         continue
-                    if style == "extreme":
+                    if style == "thresh":
+                        e = tbase - r.choice([0, 0, 1, 2, 3])
+                    elif style == "extreme":
                         e = r.choice([dmin, dmin + 1, emin - 1, emin, emin + 1, -1, 0, 1, emax - 1, emax, r.randint(emin, emax)])
                     else:
                         e = r.randint(-6, 6) + rowsh[ii] + colsh[jj]
@@ -870,7 +952,50 @@ def fam_lacon(g, prop, count, types):
 
 
 # ----------------------------------------------------------------------------- C10
-def fam_order(g, prop, count, types=None, nmax=7, exhaustive3=False):
+def block_pattern(g, nmax=20):
+    """reducible square pattern: a direct sum of small graphs of different kinds (isolated vertices, paths, cycles, stars,
+    tridiagonal and dense blocks, a column that shares no row with any other), in random order and with a random relabelling or not:
+    the ordering graph of A'A / A'+A then has several components that the minimum-degree codes finish at different times"""
+    r = g.r
+    P = set(); n = 0
+    kinds = ["iso", "iso", "path", "cycle", "star", "tri", "dense", "arrow", "pair"]
+    for _ in range(r.randint(2, 7)):
+        kind = r.choice(kinds)
+        k = 1 if kind == "iso" else 2 if kind == "pair" else r.randint(3, 6)
+        if n + k > nmax:
+            break
+        o = n
+        for a in range(k):
+            P.add((o + a, o + a))
+        if kind in ("path", "tri", "pair"):
+            for a in range(k - 1):
+                P.add((o + a + 1, o + a))
+                if kind != "path" or r.random() < 0.5:
+                    P.add((o + a, o + a + 1))
+        elif kind == "cycle":
+            for a in range(k):
+                P.add((o + (a + 1) % k, o + a))
+        elif kind in ("star", "arrow"):
+            for a in range(1, k):
+                P.add((o + a, o)); 
+                if kind == "arrow":
+                    P.add((o, o + a))
+        elif kind == "dense":
+            P |= {(o + a, o + b) for a in range(k) for b in range(k)}
+        n += k
+    if n == 0:
+        P = {(0, 0)}; n = 1
+    if r.random() < 0.3:             # a diagonal entry missing here and there (zero diagonal is legal for the orderings)
+        d = r.randrange(n)
+        if len([1 for kk in P if kk[1] == d]) > 1:
+            P.discard((d, d))
+    if r.random() < 0.5:             # symmetric relabelling: components interleaved
+        q = list(range(n)); r.shuffle(q)
+        P = {(q[a], q[b]) for (a, b) in P}
+    return n, P
+
+
+def fam_order(g, prop, count, types=None, nmax=7, exhaustive3=False, blocks=0):
     """get_perm_c + sp_preorder, getata, at_plus_a on many patterns; each ordering call is repeated with other values
     on the same pattern (orderings depend on the pattern only); SymmetricMode on/off; reuse (Fact != DOFACT)"""
     r = g.r
@@ -891,6 +1016,9 @@ def fam_order(g, prop, count, types=None, nmax=7, exhaustive3=False):
         if r.random() < 0.15:
             P |= {(r.randrange(m), j) for j in range(n)}          # a dense row
         pats.append((m, n, P))
+    for i in range(blocks):
+        nb, P = block_pattern(g)
+        pats.append((nb, nb, P))
     for i, (m, n, P) in enumerate(pats):
         if not P:
             P = set()
@@ -1600,6 +1728,41 @@ def fam_symrelax(g, prop, count, types, fns=("gssv", "gstrf")):
             tune = [r.randint(1, 4), relax, r.randint(relax, 14), r.randint(1, 4), r.randint(1, 3), r.choice([1, 2, 30]), r.randint(1, 6)]
             cp = r.choice([NATURAL, NATURAL, MY_PERMC, MMD_AT_PLUS_A])
             lst.append(lu_scenario(g, "%s-symrelax-%05d-%s" % (prop, i, ty), ty, n, A=A, tune=tune, sym=1, colperm=cp, u=float(r.choice([1.0, 0.5, 0.125])), fn=r.choice(list(fns))))
+        out[ty] = lst
+    return out
+
+
+def fam_blocktri(g, prop, count, types, fns=("gssv", "gstrf")):
+    """reducible systems: block upper triangular A = [B C ..; 0 D ..; ..] with 2..4 dense-ish diagonal blocks and upper coupling
+    blocks, natural order mostly (the block structure survives), panels of 2..8 columns and narrow relaxed supernodes: a
+    supernode that ends a diagonal block has NO row below its triangle, and later columns of the same panel have U segments of
+    every length in it"""
+    out = {}
+    for ty, k in split_types(count, types).items():
+        cplx = is_cplx(ty)
+        lst = []
+        for i in range(k):
+            r = g.r
+            sizes_ = [r.randint(1, 5) for _ in range(r.randint(2, 4))]
+            n = sum(sizes_)
+            offs = [sum(sizes_[:b]) for b in range(len(sizes_))]
+            A = {}
+            for b, (o, sz) in enumerate(zip(offs, sizes_)):
+                dense = r.random() < 0.6
+                for a in range(sz):
+                    for c in range(sz):
+                        if a == c or dense or r.random() < 0.5:
+                            A[(o + a, o + c)] = g.value("pow2", cplx) if a != c else ((4.0, 0.0) if r.random() < 0.7 else g.value("pow2", cplx))
+                for b2 in range(b + 1, len(sizes_)):
+                    dens = r.choice([0.0, 0.3, 0.7, 1.0])
+                    for a in range(sz):
+                        for c in range(sizes_[b2]):
+                            if r.random() < dens:
+                                A[(o + a, offs[b2] + c)] = g.value("pow2", cplx)
+            relax = r.randint(1, 2)
+            tune = [r.randint(2, 8), relax, r.randint(max(relax, 2), 8), r.randint(1, 4), r.randint(1, 4), r.choice([1, 2, 30]), 4]
+            lst.append(lu_scenario(g, "%s-blocktri-%05d-%s" % (prop, i, ty), ty, n, A=A, tune=tune, colperm=r.choice([NATURAL, NATURAL, NATURAL, COLAMD, MMD_AT_PLUS_A]),
+                                   u=float(r.choice([1.0, 1.0, 0.5, 0.125])), fn=r.choice(list(fns))))
         out[ty] = lst
     return out
 
